@@ -34,6 +34,12 @@ func runC01(c *Ctx) {
 	c01Options(c)
 	c01Purity(c)
 	c01Single(c)
+	c01PerInterface(c)
+	// "exactly the options the configuration calls for … for every interface address list / loopback
+	// route list": the wildcard stanzas expand by the rules of C13–C15, which are shared here
+	runC13(c)
+	runC14(c)
+	runC15(c)
 }
 
 func c01Header(c *Ctx) {
@@ -524,4 +530,65 @@ func c01Single(c *Ctx) {
 		}
 	}
 	c.R.Check(n == 1, "R-C01-5", "module:ra-literals", "", "", fmt.Sprintf("%d RA literal(s)", n), "exactly one", "unexpected number of RA constructors")
+}
+
+// c01PerInterface (R-C01-6): every interface of a `names` group gets its own
+// parse — and with it its own plugin instances. Plugins carry per-interface
+// state filled in by Prepare (hardware address, address and route lookups), so
+// two interfaces sharing one plugin object advertise each other's state.
+func c01PerInterface(c *Ctx) {
+	pis := c.needFunc("R-C01-6", "internal/config", "parseInterfaces")
+	if pis == nil {
+		return
+	}
+	fn := c.fname(pis)
+	n := 0
+	for _, p := range c.pathsO("R-C01-6", pis, an.PathOpts{EmitCut: true}) {
+		if !p.Cut {
+			continue
+		}
+		p.Instrs(func(in ssa.Instruction) {
+			call, ok := in.(*ssa.Call)
+			if !ok {
+				return
+			}
+			b, ok := call.Call.Value.(*ssa.Builtin)
+			if !ok || b.Name() != "append" {
+				return
+			}
+			sl, ok := call.Type().Underlying().(*types.Slice)
+			if !ok || !strings.HasSuffix(typeStr(sl.Elem()), "config.Interface") {
+				return
+			}
+			n++
+			e := p.Of(call)
+			okOwn := false
+			fact := e.String()
+			if e.Op == an.OpAppend && len(e.Args) == 2 && e.Args[1].Op == an.OpStruct && len(e.Args[1].Args) == 1 {
+				el := e.Args[1].Args[0]
+				// the element is (a copy of) result #0 of a parseInterface call made in this iteration,
+				// for this iteration's name
+				var pcall *an.Expr
+				el.Walk(func(x *an.Expr) bool {
+					if exprCallIs(x, PkgConfig, "", "parseInterface") && pcall == nil {
+						pcall = x
+					}
+					return true
+				})
+				if pcall != nil && len(pcall.Args) >= 1 {
+					inLoop := false
+					if cv, isV := pcall.V.(*ssa.Call); isV && p.CutTo != nil && cv.Parent() == p.CutTo.Parent() {
+						inLoop = p.CutTo.Dominates(cv.Block()) && cv.Block() != p.CutTo.Parent().Blocks[0]
+					}
+					perName := pcall.Args[0].Contains(func(x *an.Expr) bool { return x.Op == an.OpLoop })
+					okOwn = inLoop && perName
+					fact = fmt.Sprintf("appends %s; parse call inside the loop=%v, called with this iteration's name=%v", pcall, inLoop, perName)
+				}
+			}
+			c.R.Check(okOwn, "R-C01-6", fn+":own-parse-per-interface", fn, c.pos(call.Pos()), fact,
+				"each interface appended to the group is the result of its own parseInterface call (own plugin instances)",
+				"interfaces of one group share plugin objects: Prepare for one interface overwrites the state the others advertise")
+		})
+	}
+	c.R.Check(n >= 1, "R-C01-6", fn+":append-sites", fn, c.pos(pis.Pos()), fmt.Sprintf("%d append(s) of an Interface on iteration paths", n), ">= 1", "anchor-missing")
 }
